@@ -920,7 +920,8 @@ class XsdElement(XsdComponent, ParticleMixin,
                 fields = tuple(
                     s.get_value(element_node, context.namespaces) for s in selectors
                 )
-            except (XMLSchemaValueError, XMLSchemaTypeError) as err:
+            except (XMLSchemaValueError, XMLSchemaTypeError, ValueError) as err:
+                # ValueError: errors of the XPath processor on malformed instance data
                 context.validation_error(validation, self, err, obj)
             else:
                 if any(x is not None for x in fields) or nilled:
